@@ -57,7 +57,7 @@ var checks = map[string]*Check{
 			{World: "C04b/faulty", Weight: 2},
 			{World: "C04b", Race: true, Weight: 1},
 		},
-		Probes:      []string{"id_listed_more_than_once", "concurrent_pollers", "window_relist", "poller_aborted"},
+		Probes:      []string{"id_listed_more_than_once", "concurrent_pollers", "window_relist", "relisted_every_time", "poller_aborted", "half_closed_poller"},
 		Rule:        "(a) real agent vs scripted fake proxy: pending-list replies repeat/permute/overlap 2..12 (thorough ..60) request IDs, plus a dedup-window leg re-listing an ID after up to 998 other IDs; counting backend; fetch/upload 5xx in the faulty leg. (b) real proxy with 2..5 concurrent harness pollers (some abandoning the list call) and 2..10 (..40) clients; every ID must be reported in exactly one list reply.",
 		Assumptions: commonAssumptions,
 		RealStub:    coreRealStub,
